@@ -10,7 +10,9 @@ CFG = cfg('C19', refine=['Refine_keyring'], extract='Ex_C19', driver='c19',
                'else unload) to depth 5 over 5 keys + depth 3 over 10 keys (quick) / depth 6 over 5, depth 7 over 4, depth 5 over 6, depth 4 '
                'over 10 (thorough), load form drawn from {object, binary, armored text, armored file, binary file, bytearray, armored bytearray} x '
                '{single, list, tuple, varargs} (a bytearray must be left untouched), unload by object or through key(fingerprint / key id / short id '
-               'written in groups, key id, name); random walks of 60 steps that also re-load loaded '
+               'written in groups, key id, name); histories load K / unload a subkey of K on its own (by object, key(fingerprint), key(fingerprint in groups), key(key id)) / load K again '
+               '(the same object, a re-parsed copy in every serialised form, the other half) and toggle histories with subkey toggles to depth 4 (quick) / 5 '
+               '(thorough): what load() reports must be held and listed afterwards; random walks of 60 steps that also re-load loaded '
                'keys (serialised forms create second objects), load lists of 2-3 keys, unload absent keys and load / unload lone '
                'subkeys; selection by signature / signed message / encrypted message / unsigned message every 15 steps and on keyrings that hold none of the '
                'issuers (KeyError and nothing else, like the model); PGPKeyring._unspaced against the model and an independent reading of the rule on '
@@ -30,7 +32,8 @@ TEXT = ('Rocq theorems (Props/C19.v, closed under the global context): the layer
         'is selected by the identifier (carried as written, or -- only when its space-free form is 8 / 16 / 40 hexadecimal digits -- carried in that form: '
         'selects_literal, selects_grouped, selects_unspaced), key() sound and total, key(message) sound and KeyError exactly when no issuer selects a loaded '
         'key, identifiers of unloaded keys select nothing, fingerprints()/len exact, the deque is never empty; the pre-repair _add_alias and the pre-repair '
-        'membership rule (blanks ignored in names: "John Smith" / "JohnSmith") are refuted by concrete histories. Tie: exact state-by-state correspondence of the '
+        'membership rule (blanks ignored in names: "John Smith" / "JohnSmith") are refuted by concrete histories; every fingerprint load() returns is listed, `in` the keyring and selecting afterwards, for any history '
+        '(load_result_is_indexed / _selects, commit 7e98898), the _add_key of before is refuted (load K, unload sub(K), load K). Tie: exact state-by-state correspondence of the '
         'extracted model with the real PGPKeyring over exhaustive and random histories + the property text run directly on the implementation; '
         'pinned source text of the modelled methods.',
         'DESIGN.md 5 C19',
